@@ -111,6 +111,52 @@ def oracle(case):
     return hist.check_reads(case)
 
 
+def fault_case(seed, i, engine):
+    """one partition's iterator fails persistently (its worker exhausts its retries) while the other partitions
+    are healthy: List and Count must answer with an error, the stream must end with exactly one terminator that
+    carries the error — never a partial answer presented as complete"""
+    r = rng_for(seed, "c13fault/%d" % i)
+    keys = sorted(r.sample([k for k in KEY_POOL if b"events" not in k], 5))
+    sh = hist.Shadow()
+    body = []
+    for k in keys:
+        body += hist.gen_writes(r, sh, 2, [k], p_ok=1.0)
+    a, b = PREFIX + b"/", PREFIX + b"0"
+    border = enc(keys[2], 0)
+    lines = [hist.cfg_line(engine, splits=hx(border))] + body + ["rev"]
+    lines += ["list %s %s 0 0" % (hx(a), hx(b))]
+    for side in ("from", "notfrom"):
+        lines += ["iterfault 1 %s=%s" % (side, hx(enc(a, 0))),
+                  "list %s %s 0 0" % (hx(a), hx(b)), "count %s %s" % (hx(a), hx(b)),
+                  "echo faulted-stream", "stream %s %s %d" % (hx(enc(a, 0)), hx(enc(b, 0)), sh.dealt),
+                  "iterfault 0"]
+    lines += ["list %s %s 0 0" % (hx(a), hx(b)), "count %s %s" % (hx(a), hx(b))]
+    return core.Case("backend", lines, {"engine": engine, "borders": [border], "adv": [], "fault": True},
+                     compare=lambda op: op != "stream")
+
+
+def fault_oracle(case):
+    faulted = False
+    for i, (line, out) in enumerate(zip(case.lines, case.impl)):
+        t, o = line.split(), out.split()
+        if t[0] == "iterfault":
+            faulted = t[1] != "0"
+            continue
+        if not faulted:
+            continue
+        if t[0] in ("list", "count") and len(o) > 1 and o[1] != "err":
+            return ("line %d: `%s` answered %s although one partition of the scan could not be read: a partial result "
+                    "was presented as complete" % (i + 1, line, out[:200]), "partial-answer-no-error")
+        if t[0] == "stream":
+            batches, terms, ends = parse_stream(out)
+            if ends != 1 or len(terms) != 1:
+                return ("line %d: faulted stream has %d terminators: %s" % (i + 1, ends, out[:200]), "stream-terminator")
+            if terms[0][1] == "-":
+                return ("line %d: the stream over a partition that could not be read ended with a clean terminator after %d kvs: %s"
+                        % (i + 1, len(batches), out[:200]), "stream-clean-terminator-after-fault")
+    return None
+
+
 def big_case(seed, i, engine):
     """a partition with more than rangeStreamBatch (300) live keys: full batches are flushed from append()"""
     r = rng_for(seed, "c13big/%d" % i)
@@ -136,10 +182,12 @@ def check(rep, tier, seed):
         else:
             cases.append(gen_case(seed, i, ["memkv", "badger", "tikv"][m - 1], False))  # injected, shuffled
     cases += [big_case(seed, i, ["memkv", "tikv", "badger"][i % 3]) for i in range(4 if tier == "quick" else 12)]
+    faults = [fault_case(seed, i, ["memkv", "tikv", "badger"][i % 3]) for i in range(3 if tier == "quick" else 18)]
+    cases += faults
     core.run_cases(cases)
     for c in cases:
         rep.count_case(c)
-        hit = oracle(c)
+        hit = fault_oracle(c) if c.meta.get("fault") else oracle(c)
         if hit and not (hit[1] == "perpartition-stream" and c.meta.get("adv_mismatch")):
             if core.handle_oracle_hit(rep, "C13", hit[1], c, hit[0], hit[1]):
                 return
